@@ -249,7 +249,7 @@ def run_case(desc, ctx):
         _compare_pool(ctx, pool, shadows, None, "initial", None)
         for step in range(desc["steps"]):
             kind = rng.choice(["copy", "merge", "translate", "translate", "rotate", "scale", "scale_xyz", "normalize", "fit", "to_origin", "flatten",
-                               "edit_component", "edit_iadd", "inverse_translate", "inverse_rotate", "inverse_scale"])
+                               "edit_component", "edit_iadd", "edit_connectivity", "inverse_translate", "inverse_rotate", "inverse_scale"])
             j = rng.randrange(len(pool))
             m, sh = pool[j], shadows[j]
             history.append(kind)
@@ -320,6 +320,17 @@ def run_case(desc, ctx):
                 if not good:
                     ctx.violation("merge", "merge", "merge_is_not_the_disjoint_union", "merge result is not the inputs with indices shifted by the running vertex count",
                                   producers=[shadows[i].producer for i in idx], same_twice=(len(set(idx)) < len(idx)))
+                    raise CaseAbort()
+                # no element object (mutable index row) of the result is an element object of an input
+                ids = set()
+                for i in idx:
+                    for name in ("edges", "faces", "cells"):
+                        if hasattr(pool[i], name):
+                            ids.update(id(el) for el in getattr(pool[i], name) if isinstance(el, (list, np.ndarray)))
+                shared_rows = any(id(el) in ids for name in ("edges", "faces", "cells") if hasattr(g, name) for el in getattr(g, name))
+                if shared_rows:
+                    ctx.violation("merge", "merge", "merge_shares_index_rows_with_an_input", "the merged mesh holds the very (mutable) index rows of one of its inputs",
+                                  producers=[shadows[i].producer for i in idx])
                     raise CaseAbort()
                 pool.append(g)
                 shadows.append(Shadow(g, "merge(%s)" % ",".join(shadows[i].producer for i in idx)))
@@ -433,6 +444,24 @@ def run_case(desc, ctx):
                 want[i, k] = x
                 _check_operated(ctx, m, sh, want, "edit_component", 0.0)
                 _compare_pool(ctx, pool, shadows, "edit", "edit", j)
+            elif kind == "edit_connectivity":
+                # in-place edit of an index row (cyclic rotation of a face / cell row that is a mutable list or array)
+                name = "faces" if hasattr(m, "faces") and len(m.faces) else ("cells" if hasattr(m, "cells") and len(m.cells) else None)
+                if name is None:
+                    continue
+                cont = getattr(m, name)
+                k = rng.randrange(len(cont))
+                row = cont[k]
+                if isinstance(row, list):
+                    row.append(row.pop(0))
+                elif isinstance(row, np.ndarray):
+                    row[:] = np.roll(row, -1)
+                else:
+                    continue
+                ctx.cls("edit_connectivity:" + type(row).__name__)
+                sh.I[name][k] = sh.I[name][k][1:] + sh.I[name][k][:1]
+                ctx.obs("transform", "edit_connectivity")
+                _compare_pool(ctx, pool, shadows, "edit_connectivity", "edit_connectivity", None)
             elif kind == "edit_iadd":
                 i = rng.randrange(len(sh.V))
                 d = np.array([rng.uniform(-1, 1) for _ in range(3)])
